@@ -67,11 +67,10 @@ func funcArrayLen(ctx *Context, this *VMValue, params []*VMValue) *VMValue {
 
 // ctxRand 返回以当前上下文的随机源(未设置种子时为全局随机源)为基础的随机数生成器
 func ctxRand(ctx *Context) *rand.Rand {
-	src := randSource
 	if ctx != nil && ctx.RandSrc != nil {
-		src = ctx.RandSrc
+		return rand.New(ctx.RandSrc)
 	}
-	return rand.New(src)
+	return rand.New(lockedGlobalSource{})
 }
 
 func funcArrayShuttle(ctx *Context, this *VMValue, params []*VMValue) *VMValue {
